@@ -14,6 +14,7 @@ package main
 
 import (
 	"fmt"
+	"go/token"
 	"go/types"
 	"sort"
 	"strings"
@@ -314,6 +315,8 @@ func rulesHygiene(cx *Ctx, prop string) []Obligation {
 	obs = append(obs, ruleNoConstantFastPath(cx, prop)...)
 	obs = append(obs, ruleNoAliasingAppend(cx, prop)...)
 	obs = append(obs, ruleNoInPlaceWrite(cx, prop)...)
+	obs = append(obs, rulesMulAccElsewhere(cx, prop)...)
+	obs = append(obs, ruleDeferDiscipline(cx, prop)...)
 	return obs
 }
 
@@ -632,4 +635,121 @@ func freshAtAllCallSites(P *Program, fn *ssa.Function, idx int) bool {
 		}
 	}
 	return n > 0
+}
+
+// ruleDeferDiscipline (DF): gnark runs the callbacks registered with Compiler().Defer in registration order, after
+// the circuit is defined. The Goldilocks chip registers the drain of its collected range checks when it is created —
+// before any verifier code runs — so every callback registered later runs AFTER the drain: range checks it collects
+// are never handed to gnark, silently (no constraint, no panic). A callback registered earlier runs before the drain
+// and can empty the collection. Either way the test engine with honest hints sees nothing. Rule: the only call of
+// Compiler().Defer in the circuit packages is the Goldilocks package registering the chip's own drain (a bound method
+// that reads the collected list).
+func ruleDeferDiscipline(cx *Ctx, prop string) []Obligation {
+	P := cx.P
+	key := prop + "/DF/only-the-drain-is-deferred"
+	desc := "the only callback registered with Compiler().Defer is the Goldilocks chip's own drain, registered by its constructor: any other deferred callback runs before or after the drain of the collected range checks, so checks it makes are never applied (or the collection is emptied first) — invisibly to the test engine"
+	var sites []string
+	nDrain := 0
+	for _, fn := range P.ModuleFuncsSorted() {
+		if !circuitPackage(fn) {
+			continue
+		}
+		for _, b := range fn.Blocks {
+			for _, ins := range b.Instrs {
+				c, ok := ins.(*ssa.Call)
+				if !ok || !c.Common().IsInvoke() || c.Common().Method == nil || c.Common().Method.Name() != "Defer" {
+					continue
+				}
+				if m := c.Common().Method; m.Pkg() == nil || !strings.HasPrefix(m.Pkg().Path(), "github.com/consensys/gnark/frontend") {
+					continue
+				}
+				okDrain := false
+				if fnPkgShort(fn) == "goldilocks" && len(c.Common().Args) == 1 {
+					if mc, ok := c.Common().Args[0].(*ssa.MakeClosure); ok && len(mc.Bindings) == 1 {
+						if target := boundTarget(mc.Fn.(*ssa.Function)); target != nil && readsCollected(target) {
+							okDrain = true
+						}
+					}
+				}
+				if okDrain {
+					nDrain++
+				} else {
+					sites = append(sites, P.Pos(ins.Pos())+" in "+P.FnName(fn))
+				}
+			}
+		}
+	}
+	if len(sites) > 0 {
+		sort.Strings(sites)
+		return []Obligation{bad(key, desc, "another callback is deferred at "+strings.Join(sites, "; "))}
+	}
+	if nDrain == 0 {
+		return []Obligation{undecided(key, desc, "the registration of the drain itself was not found: the matcher would pass vacuously")}
+	}
+	return []Obligation{good(key, desc, fmt.Sprintf("%d registration(s), all of the chip's drain in its constructor", nDrain))}
+}
+
+// readsCollected: fn ranges over / reads the chip's rangeCheckCollected list (the drain)
+func readsCollected(fn *ssa.Function) bool {
+	for _, b := range fn.Blocks {
+		for _, ins := range b.Instrs {
+			if fa, ok := ins.(*ssa.FieldAddr); ok && fieldName(fa.X.Type(), fa.Field) == "rangeCheckCollected" && fa.Referrers() != nil {
+				for _, r := range *fa.Referrers() {
+					if ld, ok := r.(*ssa.UnOp); ok && ld.Op == token.MUL {
+						return true
+					}
+				}
+			}
+		}
+	}
+	return false
+}
+
+// ruleCollectedOnlyGrows: outside the drain the list of collected range checks is only ever appended to
+func ruleCollectedOnlyGrows(cx *Ctx, prop string) []Obligation {
+	P := cx.P
+	key := prop + "/O6.2/collected-only-grows"
+	desc := "outside the drain, the chip's list of collected range checks is only appended to (list = append(list, …)): nothing clears, truncates or replaces it before the drain has handed every entry to gnark"
+	var sites []string
+	n := 0
+	for _, fn := range P.ModuleFuncsSorted() {
+		if !circuitPackage(fn) || len(fn.Blocks) == 0 {
+			continue
+		}
+		for _, b := range fn.Blocks {
+			for _, ins := range b.Instrs {
+				st, ok := ins.(*ssa.Store)
+				if !ok {
+					continue
+				}
+				fa, ok := st.Addr.(*ssa.FieldAddr)
+				if !ok || fieldName(fa.X.Type(), fa.Field) != "rangeCheckCollected" {
+					continue
+				}
+				if _, building := fa.X.(*ssa.Alloc); building {
+					continue // the constructor initialising a new chip
+				}
+				n++
+				okApp := false
+				if c, ok := st.Val.(*ssa.Call); ok {
+					if bi, ok := c.Common().Value.(*ssa.Builtin); ok && bi.Name() == "append" && len(c.Common().Args) >= 1 {
+						if base, ok := fieldLoad(stripCopies(c.Common().Args[0]), "rangeCheckCollected"); ok && base == fa.X {
+							okApp = true
+						}
+					}
+				}
+				if !okApp {
+					sites = append(sites, P.Pos(st.Pos())+" in "+P.FnName(fn)+": "+st.Val.String())
+				}
+			}
+		}
+	}
+	if len(sites) > 0 {
+		sort.Strings(sites)
+		return []Obligation{bad(key, desc, "the collected list is overwritten at "+strings.Join(sites, "; "))}
+	}
+	if n == 0 {
+		return []Obligation{undecided(key, desc, "no store into Chip.rangeCheckCollected was found (the collecting append was expected)")}
+	}
+	return []Obligation{good(key, desc, fmt.Sprintf("%d store(s), all of the form list = append(list, …)", n))}
 }
